@@ -96,6 +96,18 @@ def gen_inputs(rng, N):
     g[rng.random(N) < 0.3] = 9.8
     dt = O.loguniform(rng, 1e-4, 2.0, N)
     dt[rng.random(N) < 0.03] = 0.0
+    # attitudes with scalar part exactly 0 (half turns), kept there by dt = 0, zero rate or a rate perpendicular to the axis
+    k = min(N // 20, 200)
+    if k >= 6:
+        ax = np.concatenate([np.eye(3), np.array([[0.6, 0.8, 0.0], [0.0, -0.6, 0.8], [0.8, 0.0, 0.6]]), O.random_axes(rng, max(0, k - 6))])[:k]
+        ax[6:, 2] = 0.0
+        ax /= np.linalg.norm(ax, axis=1, keepdims=True)
+        q0[:k] = np.concatenate([np.zeros((k, 1)), ax], axis=1) * rng.choice([-1.0, 1.0], (k, 1))
+        mode = rng.integers(0, 3, k)
+        dt[:k] = np.where(mode == 0, 0.0, dt[:k])
+        w[:k] = np.where((mode == 1)[:, None], 0.0, w[:k])
+        perp = np.cross(ax, O.random_axes(rng, k))
+        w[:k] = np.where((mode == 2)[:, None], perp * np.linalg.norm(w[:k], axis=1, keepdims=True), w[:k])
     return p0, v0, q0, a, w, g, dt
 
 
